@@ -741,3 +741,137 @@ Definition paths_case (all : list edge) (feed : nat) (ends : list nat)
       && list_eqb (fun a b => list_eqb Nat.eqb (fst a) (fst b) && (snd a =? snd b)) cyc exp_cyclic
       && set_eqb ends' exp_ends
   end.
+
+(* ------------------------------------------------------------------ part 7: whole methods of the multi-feed phase
+   Network.join_network_at_unit, Network._append_network and Network.reduce_recycles (network.py), on the
+   trees of part 5.  join_network_at_unit mutates its argument (`network.recycle = None` in the feed-forward
+   branch, the merges of _insert_recycle_network), and its recursive branch reads `network.units` after the
+   nested call, so the model returns the pair (receiver, argument) after the call.  None = ValueError. *)
+Section Whole.
+Variable es : list edge.
+Variable all : list edge.
+Variable tbl : list (list nat * nat).
+
+(* the `network` argument of _insert_recycle_network after the call (same fuel convention as insert_recycle) *)
+Definition ir_arg (fuel : nat) (s : net) (index : nat) (n : net) : option net :=
+  match fuel with
+  | O => None
+  | S f =>
+      let p := n_path s in
+      let RU := recycle_units es (n_units n) in
+      let tail := skipn index p in
+      let merged x := is_net x && negb (disjointb (n_units x) RU) in
+      obind (fold_left (fun acc x => obind acc (fun nc => if merged x then join_recycle es all tbl f nc x else Some nc))
+                       tail (Some n))
+        (fun n1 =>
+           let seg := filter (unit_in RU) tail in
+           let segU := add_all [] (flat_map flatn seg) in
+           Some (if negb (subsetb segU (n_units n1))
+                 then add_linear n1 (NN (pop_if_closed seg) [] segU) else n1))
+  end.
+
+(* Network.join_network_at_unit(network, unit) *)
+Fixpoint join_at (fuel : nat) (s n : net) (unit : nat) : option (net * net) :=
+  match fuel with
+  | O => None
+  | S f =>
+      let p := n_path s in
+      let has_rc := negb (is_nil (n_rc n)) in
+      (fix loop (l : list net) (index : nat) : option (net * net) :=
+         match l with
+         | [] => Some (join_linear (S f) s n, n)
+         | NN _ _ Ux as item :: t =>
+             if memb unit Ux then
+               if has_rc then
+                 match join_at f item n unit with
+                 | Some (item', n') =>
+                     Some (NN (firstn index p ++ item' :: t) (n_rc s) (add_all (n_units s) (n_units n')), n')
+                 | None => None
+                 end
+               else Some (insert_linear s index n, n)
+             else loop t (S index)
+         | NU u :: t =>
+             if u =? unit then
+               if has_rc then
+                 if negb (is_nil (n_rc s)) then
+                   Some (insert_linear (set_rc s (add_all (n_rc s) (n_rc n))) index (set_rc n []), set_rc n [])
+                 else match insert_recycle es all tbl (S f) s index n p, ir_arg (S f) s index n with
+                      | Some r, Some n' => Some (r, n')
+                      | _, _ => None
+                      end
+               else Some (insert_linear s index n, n)
+             else loop t (S index)
+         end) p 0
+  end.
+
+(* Network._append_network(network) *)
+Definition append_network (s n : net) : net :=
+  if negb (is_nil (n_rc s)) then
+    let new := NN (n_path s) (n_rc s) (n_units s) in
+    NN (if negb (is_nil (n_rc n)) then [new; n] else new :: n_path n) [] (add_all (n_units s) (n_units n))
+  else if negb (is_nil (n_rc n)) then
+    NN (n_path s ++ [n]) (n_rc s) (add_all (n_units s) (n_units n))       (* _append_recycle_network *)
+  else append_linear s n.
+
+(* Network.reduce_recycles.  A recycle that `isinstance(recycle, set)` holds at least two streams and a
+   recycle that is a single stream is not a set when reduce_recycles runs (sets only arise from add_recycle
+   merging two different recycles; the harness asserts this on every recorded call), so the test is on the
+   length.  sink.outs[0] / source.ins[0] are only read when they are the only outlet / inlet.
+   None = AttributeError on a recycle stream without sink / source. *)
+Definition source_of (s : nat) : nat :=
+  match find (fun e => sid e =? s) all with Some e => src e | None => nounit end.
+
+Definition reduce_rc (r : list nat) : option (list nat) :=
+  if 2 <=? length r then
+    match add_all [] (map (sink_of all) r) with
+    | [k] => if k =? nounit then None
+             else match outs_of all k with [o] => Some [o] | _ => Some r end
+    | _ => match add_all [] (map source_of r) with
+           | [k] => if k =? nounit then None
+                    else match ins_of all k with [i] => Some [i] | _ => Some r end
+           | _ => Some r
+           end
+    end
+  else Some r.
+
+Fixpoint sequence {A} (l : list (option A)) : option (list A) :=
+  match l with
+  | [] => Some []
+  | Some x :: t => option_map (cons x) (sequence t)
+  | None :: _ => None
+  end.
+
+Fixpoint reduce (x : net) : option net :=
+  match x with
+  | NU u => Some (NU u)
+  | NN p r U =>
+      obind (sequence (map reduce p))
+        (fun p1 =>
+           let '(p2, r2) := match p1 with
+                            | [NN q rq _] => (q, add_all r rq)
+                            | _ => (p1, r)
+                            end in
+           option_map (fun r3 => NN p2 r3 U) (reduce_rc r2))
+  end.
+End Whole.
+
+(* post = the call was made by from_feedstock: the invariants are evaluated on the result as for the other steps *)
+Definition join_at_case (post : bool) (es all : list edge) (tbl : list (list nat * nat)) (s n : net) (unit : nat)
+           (after : option (net * net)) : bool :=
+  match join_at es all tbl 20 s n unit, after with
+  | Some (a, b), Some (a', b') => net_eqb a a' && net_eqb b b' && implb post (units_okb a && nodup_pathb a)
+  | None, None => true
+  | _, _ => false
+  end.
+
+Definition append_network_case (post : bool) (s n after : net) : bool :=
+  let r := append_network s n in net_eqb r after && implb post (units_okb r && nodup_pathb r).
+
+(* reduce_recycles changes neither `units` nor the flattened path *)
+Definition reduce_case (all : list edge) (s : net) (after : option net) : bool :=
+  let r := reduce all s in
+  onet_eqb r after
+  && match r with
+     | Some x => list_eqb Nat.eqb (flatn x) (flatn s) && set_eqb (n_units x) (n_units s)
+     | None => true
+     end.
